@@ -90,6 +90,29 @@ func main() {
 		}
 		counter := 0
 		kept := 0
+		// `f := x.m1; if c { f = x.m2 }; f(args)`: two static calls (a few passes: one site per file and pass)
+		for pass := 0; pass < 3; pass++ {
+			disp, notes := normalize.DispatchMethodValues(pr, cur)
+			if len(disp) == 0 {
+				break
+			}
+			next := map[string][]byte{}
+			for k, v := range cur {
+				next[k] = v
+			}
+			for k, v := range disp {
+				next[k] = v
+			}
+			prog2, err2 := load.Load(load.Options{Dir: *repo, Overlay: next, GOARCH: *goarch})
+			if err2 != nil {
+				normNotes = append(normNotes, tag+"method-value dispatch abandoned (overlay does not type-check)")
+				break
+			}
+			pr, cur = prog2, next
+			for _, n := range notes {
+				normNotes = append(normNotes, tag+n)
+			}
+		}
 		// `case a || b:` of a tagless switch: one branch per condition
 		if split, notes := normalize.SplitCaseOr(pr, cur); len(split) > 0 {
 			next := map[string][]byte{}
